@@ -41,6 +41,7 @@ CONFIGS = [
     ("ga_constrained", "ga_constrained", {}, "GA on lists (ConstrainedFitness)"),
     ("gp_typed_builtin", "gp_typed", {"variant": "builtin"}, "GP with ephemerals (typed, builtin types)"),
     ("gp_typed_heap", "gp_typed", {"variant": "heap"}, "GP with ephemerals (typed, user classes as types)"),
+    ("gp_typed_sub", "gp_typed", {"variant": "sub"}, "GP with ephemerals (typed, bool < int: the super type inherits the subtype's entries)"),
     ("cma", "cma", {}, "CMA-ES"),
     ("cma_user", "cma", {"user": {"centroid": "ndarray"}}, "CMA-ES (user-supplied cmatrix and ndarray centroid)"),
     ("cma_user_list", "cma", {"user": {"centroid": "list"}}, "CMA-ES (user-supplied cmatrix and list centroid)"),
